@@ -1,0 +1,13 @@
+//go:build verif
+
+package leveldb
+
+// VerifForget drops what the process-wide verification tables still hold about a DB that has been closed.
+// verifNoteMinSeq records the session of every table compaction that starts and the entry is removed only when
+// that compaction commits; a DB closed in between (the usual fate of a DB opened on a crash image) would stay
+// reachable, together with its storage, for the life of the process.
+func VerifForget(db *DB) {
+	if db != nil && db.s != nil {
+		verifMinSeqs.Delete(db.s)
+	}
+}
